@@ -1612,6 +1612,8 @@ static RegAnalysis InstInternal_reg_analysis(const Operand_* operands, size_t op
         mask |= Support::bit_mask<uint32_t>(mem.index_type());
         high_vec_used |= uint32_t(mem.index_id() >= 16 && mem.index_id() < 32);
       }
+      // Embedded broadcast {1toN} is only encodable by EVEX - handled like a register that only EVEX can address.
+      high_vec_used |= uint32_t(op.as<Mem>().has_broadcast());
     }
   }
 
@@ -1693,8 +1695,8 @@ Error query_features(Arch arch, const BaseInst& inst, const Operand_* operands, 
 
     // Handle PCLMULQDQ vs VPCLMULQDQ.
     if (out->has(Ext::kVPCLMULQDQ)) {
-      if (reg_analysis.has_reg_type(RegType::kVec512) || Support::test(options, InstOptions::kX86_Evex)) {
-        // AVX512_F & VPCLMULQDQ.
+      if (InstInternal_usesAvx512(options, inst.extra_reg(), reg_analysis) | reg_analysis.high_vec_used) {
+        // AVX512_F & VPCLMULQDQ (ZMM, XMM|YMM 16..31, or forced EVEX).
         out->remove(Ext::kAVX, Ext::kPCLMULQDQ);
       }
       else if (reg_analysis.has_reg_type(RegType::kVec256)) {
